@@ -3,7 +3,7 @@ import ast
 import re
 
 from ..core import AnalysisError, dotted, walk_no_nested, FuncTypes
-from ..cfg import CFG
+from ..cfg import CFG, cond_guards
 from ..util import last_attr, calls_in, local_defs, depends_on, const_val, names_in
 
 ASSUMPTIONS = [
